@@ -55,6 +55,25 @@ Theorem C07_inherit : forall a p,
 Proof. exact inherit_correct. Qed.
 Print Assumptions C07_inherit.
 
+(** C07_page and C07_inherit composed — the full statement of the property as the caller observes it:
+    get_page(i) is the i-th leaf and its boxes / resources are the nearest ancestor's, or PageOutOfBounds. *)
+Definition C07_full_statement : Prop := forall st fuel id a c kids i,
+  let t := Node id a c kids in
+  stored st None t -> accurate t -> acyclic t ->
+  (theight t <= N.to_nat page_depth)%nat -> (theight t < fuel)%nat -> i <= u32_max ->
+  exists rt, load_root st fuel id = Ok rt /\
+    match nth_error (leaves t) (N.to_nat i) with
+    | Some (lid, la, lanc) =>
+      exists p, get_page st fuel rt i = Ok (lid, LNLeaf la p) /\
+                media_box la p = spec_media_box (la :: lanc) /\
+                crop_box la p = spec_crop_box (la :: lanc) /\
+                resources la p = spec_resources (la :: lanc)
+    | None => get_page st fuel rt i = Err EPageOutOfBounds
+    end.
+Theorem C07_full : C07_full_statement.
+Proof. exact page_attributes_correct. Qed.
+Print Assumptions C07_full.
+
 (** Generated-table lemma: the depth budget in the source covers the dozen levels the property asks for. *)
 Theorem C07_depth_budget : 12 <= page_depth.
 Proof. exact page_depth_dozen. Qed.
